@@ -105,6 +105,13 @@ Theorem C02_defaults_documented :
 Proof. exact (conj default_allowed_doc (proj1 gen_defaults)). Qed.
 Print Assumptions C02_defaults_documented.
 
+(* 10. Configuration precedence: the allowed set and the small-integer limit in effect are those of the language's
+       sub-section when it sets the key, else the top-level key, else the default (the order is read from from_dict). *)
+Theorem C02_config_precedence : forall cfg,
+  (forall v, nmem v (allowed cfg) = nmem v (spec_allowed cfg)) /\ max_small cfg = spec_max_small cfg.
+Proof. exact (fun cfg => conj (allowed_spec cfg) (max_small_spec cfg)). Qed.
+Print Assumptions C02_config_precedence.
+
 (* non-vacuity: admissible files in the three languages with literals on both sides of the rule *)
 Definition ex_py : file :=
   mk_file "/case.py"
@@ -117,7 +124,8 @@ Definition ex_py : file :=
 Definition ex_ts : file :=
   mk_file "/case.ts"
     [mk_scope STop None [] [mk_site CTsEnum "EV" [LInt RDec [[7]] false ""] 1; mk_site CAssign "val" [LInt RHex [[15;14]] true ""] 2;
-                            mk_site CArg "foo" [LInt RDec [[1;0]] false "n"; LStr "42"] 3]].
+                            mk_site CArg "foo" [LInt RDec [[1;0]] false "n"; LStr "42"] 3;
+                            mk_site CInterp "val" [LInt RDec [[3;7]] false ""] 4]].
 Definition ex_rs : file :=
   mk_file "/case.rs"
     [mk_scope SFunc None [] [mk_site CAssign "val" [LInt RHex [[1;15;3;2]] false ""] 2; mk_site CUpper "MAX_V" [LInt RDec [[9]] false ""] 3];
@@ -127,7 +135,10 @@ Definition ex_cfg : mconfig := mk_cfg (Some [(7, 0)%Z]) None None.
 Example C02_nonvacuous :
   file_good MPy ex_py = true /\ file_good MTs ex_ts = true /\ file_good MRs ex_rs = true
   /\ spec_report MPy ex_cfg ex_py = [(2, RNum (31, 0)%Z); (4, RNum (5, 1)%Z); (5, RNum (25, -4)%Z)]
-  /\ spec_report MTs ex_cfg ex_ts = [(2, RNum (254, 0)%Z); (3, RNum (1, 1)%Z)]
+  /\ spec_report MTs ex_cfg ex_ts = [(2, RNum (254, 0)%Z); (3, RNum (1, 1)%Z); (4, RNum (37, 0)%Z)]
+  /\ spec_report MTs (mk_cfg (Some [(37, 0)%Z]) None (Some (None, Some 3%Z))) ex_ts = [(2, RNum (254, 0)%Z); (3, RNum (1, 1)%Z)]
+  /\ spec_report MTs (mk_cfg (Some [(37, 0)%Z]) None (Some (Some [], None))) ex_ts
+     = [(2, RNum (254, 0)%Z); (3, RNum (1, 1)%Z); (4, RNum (37, 0)%Z)]
   /\ spec_report MRs ex_cfg ex_rs = [(2, RNum (7986, 0)%Z)].
 Proof. vm_compute. repeat split; reflexivity. Qed.
 
